@@ -291,7 +291,19 @@ const ruleC06 = "rapid: (condition AST, item, bindings) - ASTs up to depth 6 ove
 func TestC06(t *testing.T) {
 	st := stats.For("C06")
 	st.SetRule(ruleC06)
-	rapid.Check(t, func(rt *rapid.T) {
+	rapid.Check(t, propC06)
+}
+
+// FuzzC06 drives the same property from the native coverage-guided fuzzer
+// (thorough tier): the fuzzer's bytes are the source of rapid's draws.
+func FuzzC06(f *testing.F) {
+	stats.For("C06").SetRule(ruleC06)
+	f.Fuzz(rapid.MakeFuzz(propC06))
+}
+
+func propC06(rt *rapid.T) {
+	st := stats.For("C06")
+	{
 		o := avOpts(3, false)
 		it := richItem(rt, o)
 		c := gen.NewExprCtx(it, o)
@@ -339,7 +351,7 @@ func TestC06(t *testing.T) {
 		if f != nil {
 			failCase(rt, "C06", "c06", f, ec)
 		}
-	})
+	}
 }
 
 func init() {
